@@ -1,0 +1,16 @@
+//go:build verif
+
+package shaping
+
+// Read-only accessors used by the C07 verification harness (bidi step of the itemization).
+
+// VerifSplitByBidi runs reset and splitByBidi on the Segmenter and returns a copy
+// of the runs it produced.
+func (seg *Segmenter) VerifSplitByBidi(text Input) []Input {
+	seg.reset()
+	seg.splitByBidi(text)
+	return append([]Input(nil), seg.output...)
+}
+
+// VerifIsParagraphSeparator exposes isParagraphSeparator.
+func VerifIsParagraphSeparator(r rune) bool { return isParagraphSeparator(r) }
